@@ -339,10 +339,6 @@ impl Compiler {
 
         self.push_span(node, ctx.ast);
 
-        if !self.frame_stack.is_empty() {
-            self.frame_mut().last_node_was_return = matches!(&node.node, Node::Return(_));
-        }
-
         let result = match &node.node {
             Node::Null => {
                 let result = self.assign_result_register(ctx)?;
@@ -718,8 +714,14 @@ impl Compiler {
 
         let block_result = self.compile_block(expressions, ctx.with_register(result_register))?;
 
+        // The frame only ends with a return if the block's last expression is a return,
+        // a return that's nested in the last expression (e.g. in an `if`) doesn't count.
+        let last_expression_is_return = expressions
+            .last()
+            .is_some_and(|expression| matches!(ctx.node(*expression), Node::Return(_)));
+
         if let Some(block_register) = block_result.register {
-            if !self.frame().last_node_was_return {
+            if !last_expression_is_return {
                 if !is_generator {
                     self.compile_check_output_type(
                         block_register,
